@@ -212,6 +212,31 @@ REGISTRY["C18"] = dict(
     explanation="Clauses C18-a..d of DESIGN.md §3 on HIR/MIR facts of the current tree. NOT decided: behavioural equality of the front ends on concrete programs.",
     assumptions=TRUSTED + ["E3: dart-sass 1.54 CssParser rejected at-rule set"],
 )
+REGISTRY["C03"] = dict(
+    module="c03",
+    level="other",
+    technique="static analysis: pairing / must-pass-through on non-Err CFG paths for discovered save-restore instances; who-may-write rule for the variable-slot cache; table extraction (precedence) and guard dominance (short-circuit, if(), binding order)",
+    claim=(
+        "Structural discipline clauses: (a,b) every discovered temporary override of scopes, flags, env, content, configuration and import path (34 instances frozen from the pinned tree) is restored on every non-Err exit; "
+        "(c) only the lookup/insert functions write Scopes.last_variable_index and every scope pop / variable removal resets it; (d) BinaryOp::precedence follows the Sass order, and/or evaluate the right operand only under the "
+        "right truthiness, if() evaluates exactly one branch; (e) arguments are evaluated before the environment switch, verify precedes binding, positional binding precedes defaults precedes the body. "
+        "NOT decided: that the values computed are the specified ones; !global/!default semantics; closure capture; @content scope."
+    ),
+    explanation="Clauses C03-a..e of DESIGN.md §3 on MIR facts of the current tree. NOT decided: evaluation results.",
+    assumptions=TRUSTED + ["evaluation errors abort the compilation (Err exits need no restore)"],
+)
+REGISTRY["C04"] = dict(
+    module="c04",
+    level="other",
+    technique="static analysis: pairing on non-Err CFG paths for the CSS-tree cursor state; who-may-mutate rule for the tree index maps; guard dominance and sibling cross-check of the bubbling visitors",
+    claim=(
+        "CSS-tree cursor discipline, a necessary condition of correct re-parenting/bubbling: (a) parent, style_rule_ignoring_at_root, media_queries(+sources), declaration_name and the at-root/keyframes/unknown-at-rule flags "
+        "(19 instances) are restored on every non-Err exit; (b) parent_to_child/child_to_parent are mutated only, and together, by CssTree::add_child/link_child_to_parent; (c) add_child copies the parent exactly under "
+        "has_following_sibling, and visit_media_rule/visit_supports_rule/visit_unknown_at_rule all re-create the style rule exactly under style_rule_exists(). NOT decided: the flattening semantics itself."
+    ),
+    explanation="Clauses C04-a..c of DESIGN.md §3 on MIR facts of the current tree. NOT decided: cross product, `&` substitution, ordering of emitted rules.",
+    assumptions=TRUSTED + ["evaluation errors abort the compilation (Err exits need no restore)"],
+)
 
 UNBUILT = "check not built yet in this session (design in DESIGN.md §3); not claimed until its rules run clean on the pinned tree"
 NOT_APPLICABLE = {
